@@ -18,6 +18,9 @@ _want12 = ("c12.join", "c12.tryjoin", "c12.detach", "c12.join_1", "c12.entry_poi
 JOBS = [j for j in _c12.JOBS if j.name in _want12] + \
        [j for j in _c01.JOBS if j.name in ("c01.create", "c01.attr_init", "c01.attr_setters")] + \
        [j for j in _c20.JOBS if j.name.startswith("c20.timedjoin")]
+# the public API functions are one-line forwarders to the bodies under contract: checked mechanically (DESIGN §3.5b)
+from units.common_forward import forward_job
+JOBS = list(JOBS) + [forward_job("c13")]
 META = {
  "level": "proof",
  "level_text": "Composition of the contracts on the real join / try-join / timed-join / detach bodies, on the finisher callbacks, on creation with a detach-state attribute and on the record/stack free lists: a thread's record is released exactly once by exactly one reaper, only when the finisher has made its last access; a detached thread releases itself; released records and default stacks go back to the executing worker's free lists, from which the next creation takes them (one-cycle contract; induction over cycles on paper).",
